@@ -85,6 +85,8 @@ RULES = {
    "an operator applied to typed constants reports the untyped kind instead of the operand type (c_int + 1 has type int, reported untyped int)", "ast.go result type mapping for instrFlagUntyped (806-828)"),
   ("KF-C03-2", "untyped-rune-decays-to-untyped-int", r'^type untyped rune reported as untyped int ',
    "'a' + 1, -'a', 'a' << 1 are untyped rune constants in Go and reported as untyped int", "ast.go untyped kind of folded results"),
+  ("KF-C03-5", "logical-operator-on-untyped-boolean-reports-bool", r'^type untyped bool reported as bool \[variable-involved, binary\]$',
+   "(x == y) && true: a comparison yields an untyped boolean and && / || of untyped booleans stay untyped in Go; the builder reports bool (so the result is not assignable to a defined boolean type)", "builtin operator && / || signatures are instantiated at bool"),
   ("KF-C03-4", "slice-of-a-constant-string-reported-untyped", r'^type string reported as untyped string \[slice\]$',
    "\"abc\"[0:1] has type string in Go (slicing a constant string gives a non-constant string); the builder reports untyped string", "util_gengo.go Slice: the operand's untyped type is kept"),
   ("KF-C03-3", "untyped-int-shift-by-float-count-reported-untyped-float", r'^type untyped int reported as untyped float \[constant-operands, shift\]$',
